@@ -37,8 +37,8 @@ def g_env(cfg, dialect, truthy, cols, scalar) -> str:
     from implgraph import g_provider
     sc = "; ".join("(%s, [%s])" % (coq_string(k), "; ".join(
         "(%s, %s)" % (coq_string(c), "None" if q is None else "Some " + coq_string(q)) for c, q in v)) for k, v in scalar.items())
-    return ("{| e_cfg := %s; e_icfg := \"\"; e_dialect := %s; e_provider := %s; e_scalar := [%s] |}"
-            % (coq_string(cfg), coq_string(dialect), g_provider(truthy, cols), sc))
+    return ("(mk_env %s %s \"\" (%s) [%s])"
+            % (coq_string(dialect), coq_string(cfg), g_provider(truthy, cols), sc))
 
 
 def analyse(rec: dict) -> list[dict]:
@@ -122,6 +122,103 @@ def run(records: list[dict], shard: int = 30) -> list[dict]:
         res = [x for part in pool.map(analyse, records, chunksize=4) for x in part]
     idx = [i for i, r in enumerate(res) if "expr" in r and "skip" not in r]
     model = coq_eval(HEADER, [res[i]["expr"] for i in idx], shard=shard)
+    for i, m in zip(idx, model):
+        res[i]["model"] = m
+    for r in res:
+        r.pop("expr", None)
+    return res
+
+
+# ---------------------------------------------------------------------------
+# whole scripts: LineageRunner vs Tree/Script.v (statement loop with session metadata + build)
+# ---------------------------------------------------------------------------
+SCRIPT_HEADER = "From SV Require Import Tree.Script.\nOpen Scope string_scope."
+
+
+def analyse_script(rec: dict) -> dict:
+    warnings.filterwarnings("ignore")
+    import logging
+    logging.disable(logging.CRITICAL)
+    import implgraph
+    from sqllineage.config import SQLLineageConfig
+    from sqllineage.core.metadata.dummy import DummyMetaDataProvider
+    from sqllineage.core.parser.sqlfluff.analyzer import SqlFluffLineageAnalyzer
+    from sqllineage.core.parser.sqlfluff.models import SqlFluffColumn
+    from sqllineage.runner import LineageRunner
+
+    out = {"rec": rec}
+    dialect = rec.get("dialect", "ansi")
+    cfgd = {k: v for k, v in (rec.get("config") or {}).items() if v not in ("", False, None)}
+    if dialect == "non-validating" or cfgd.get("LATERAL_COLUMN_ALIAS_REFERENCE") or cfgd.get("TSQL_NO_SEMICOLON"):
+        out["skip"] = "not modelled at L4"
+        return out
+    if not all(32 <= ord(c) < 127 or c in "\t\n\r" for c in rec["sql"]):
+        out["skip"] = "non-ascii"
+        return out
+    md = rec.get("metadata")
+    provider = DummyMetaDataProvider(md) if md else DummyMetaDataProvider()
+    segs, scalar = [], {}
+    orig_list = SqlFluffLineageAnalyzer._list_specific_statement_segment
+    orig_sc = SqlFluffColumn._get_column_from_subquery
+
+    def rec_list(self, sql, _o=orig_list):
+        r = _o(self, sql)
+        segs.append(r[0] if r else None)
+        return r
+
+    def rec_scalar(sub_segment, _o=orig_sc):
+        r = _o(sub_segment)
+        scalar[sub_segment.raw] = [(c.column, c.qualifier) for c in r]
+        return r
+    SqlFluffLineageAnalyzer._list_specific_statement_segment = rec_list
+    SqlFluffColumn._get_column_from_subquery = staticmethod(rec_scalar)
+    try:
+        with implgraph.StatementTap() as tap:
+            lr = LineageRunner(rec["sql"], dialect=dialect, metadata_provider=provider, silent_mode=rec.get("silent", False))
+            try:
+                if cfgd:
+                    with SQLLineageConfig(**cfgd):
+                        lr._eval()
+                else:
+                    lr._eval()
+                holders = [h for _, h in tap.of_runner(lr)]
+                sh = lr._sql_holder
+                out["impl"] = "$".join(implgraph.s_graph(h.graph, canon=True) for h in holders) + "%" + "@".join([
+                    implgraph.s_graph(sh.graph, canon=True), implgraph.s_roles(sh),
+                    implgraph.s_paths(sh.get_column_lineage(True, False), True),
+                    implgraph.s_paths(sh.get_column_lineage(False, False), True),
+                    implgraph.s_paths(sh.get_column_lineage(True, True), True)])
+                out["stats"] = {"statements": len(holders), "nodes": sh.graph.number_of_nodes(),
+                                "multi_rename": any(len(h.rename) > 1 for h in holders)}
+            except Exception as e:
+                out["impl"] = "ERR:" + type(e).__name__
+                out["stats"] = {"statements": len(tap.of_runner(lr)), "nodes": 0, "multi_rename": False}
+    finally:
+        SqlFluffLineageAnalyzer._list_specific_statement_segment = orig_list
+        SqlFluffColumn._get_column_from_subquery = orig_sc
+    if out["impl"] in ("ERR:InvalidSyntaxException",) or any(s is None for s in segs):
+        out["skip"] = "parser rejected a statement (oracle outcome)"
+        return out
+    problems = []
+    for s in segs:
+        check_wf(s, problems)
+    out["wf_problems"] = problems
+    try:
+        base = "[" + "; ".join("(%s, [%s])" % (coq_string(t), "; ".join(coq_string(c) for c in cs)) for t, cs in (md or {}).items()) + "]"
+        out["expr"] = "show_script (%s) %s %s [%s]" % (
+            g_env(cfgd.get("DEFAULT_SCHEMA", ""), dialect, bool(provider), {}, scalar),
+            "true" if rec.get("silent") else "false", base, "; ".join(g_seg(s) for s in segs))
+    except ValueError as e:
+        out["skip"] = "unserialisable: " + str(e)[:60]
+    return out
+
+
+def run_scripts(records: list[dict], shard: int = 25) -> list[dict]:
+    ctx = mp.get_context("fork")
+    with ctx.Pool(min(NCPU, 16)) as pool:
+        res = pool.map(analyse_script, records, chunksize=4)
+    idx = [i for i, r in enumerate(res) if "expr" in r and "skip" not in r]
+    model = coq_eval(SCRIPT_HEADER, [res[i]["expr"] for i in idx], shard=shard)
     for i, m in zip(idx, model):
         res[i]["model"] = m
     for r in res:
